@@ -1,7 +1,122 @@
+/-
+  Driver/Kinds/CoreC.lean — case kinds of C03 (mirrors harness/kinds_corec.go).
+
+  wire  :=  version marker pt seq ts ssrc  <n> csrc*  ext  payload  pad
+  ext   :=  0 | 1 <n> item* stop | 2 appbits <n> item* | 3 profile bytes   (none | one-byte | two-byte | legacy)
+  stop  :=  none | some nibble bytes
+  item  :=  p | e id bytes
+  pad   :=  none | some filler-bytes
+
+  c03.wire  wire bytes <n> q* prev         => un hn re reUn <n> id* <n> obytes* unDirty
+  c03.mut   bytes <n> q* prev              => un hn re reUn <n> id* <n> obytes* unDirty
+  c03.view  kind(1|2|3) blk bytes <n> q* fill => unm ids <n> get* marshal size <n> to*
+  blk   :=  none | some ext(≠0)
+
+  In `c03.wire` and `c03.view` the description is first encoded by `Wire.encode` /
+  `ExtBlock.encode`; if that differs from the generator's bytes the line is a parse failure
+  (harness error), never a verdict.
+-/
 import Driver.Common
 import Driver.PacketIO
+import Rtp.Pred.C03
 namespace Rtp.Kinds.CoreC
-open Rtp Rtp.Proto
+open Rtp Rtp.Proto Rtp.Model Rtp.Spec.Wire
 
-def handlers : List (String × Handler) := []
+def rdItem : Rd Item := do
+  let t ← Rd.tok
+  match t with
+  | "p" => pure .pad
+  | "e" => do let i ← Rd.u8; let b ← Rd.bytes; pure (.elem i b)
+  | _ => Rd.fail
+
+def rdExtBlock : Rd (Option ExtBlock) := do
+  let t ← Rd.nat
+  match t with
+  | 0 => pure none
+  | 1 => do
+    let is ← Rd.list rdItem
+    let stop ← Rd.opt (do let n ← Rd.u8; let r ← Rd.bytes; pure (n, r))
+    pure (some (.oneByte is stop))
+  | 2 => do let a ← Rd.u8; let is ← Rd.list rdItem; pure (some (.twoByte a is))
+  | 3 => do let p ← Rd.u16; let b ← Rd.bytes; pure (some (.legacy p b))
+  | _ => Rd.fail
+
+def rdWire : Rd Wire := do
+  let v ← Rd.u8; let m ← Rd.bool; let pt ← Rd.u8
+  let sq ← Rd.u16; let ts ← Rd.u32; let ss ← Rd.u32
+  let cs ← Rd.list Rd.u32
+  let ext ← rdExtBlock
+  let pl ← Rd.bytes
+  let pad ← Rd.opt Rd.bytes
+  pure { version := v, marker := m, pt := pt, seq := sq, ts := ts, ssrc := ss, csrc := cs,
+         ext := ext, payload := pl, pad := pad }
+
+def rdObs : Rd Pred.C03.Obs := do
+  let un ← Rd.resC rdPacket
+  let hn ← Rd.resC Rd.nat
+  let re ← rdBytesRes
+  let ru ← Rd.resC rdPacket
+  let ids ← Rd.list Rd.u8
+  let gets ← Rd.list Rd.obytes
+  let ud ← Rd.resC rdPacket
+  pure { un := un, hn := hn, re := re, reUn := ru, ids := ids, gets := gets, unDirty := ud }
+
+/-- `c03.wire` -/
+def c03wire : Handler :=
+  mkHandler
+    (do let w ← rdWire; let b ← Rd.bytes; let qs ← Rd.list Rd.u8; let prev ← Rd.bytes
+        if w.encode != b then Rd.fail else
+        -- the specification's own decoder (oracle of c03.mut) must find every well-formed image again
+        match Wire.describe b with
+        | some w' => if w'.toPacket != w.toPacket then Rd.fail else pure (w, b, qs, prev)
+        | none => if w.WF then Rd.fail else pure (w, b, qs, prev))
+    rdObs
+    (fun (_, b, qs, prev) => Pred.C03.modelObs b qs prev)
+    (fun (w, b, qs, _) o => Pred.C03.wire w b qs o)
+    (fun (w, _, _, _) => Pred.C03.wireWF w)
+    (fun (w, _, _, _) _ =>
+      if Pred.C03.reservedRegion w then some "c03_reserved_id"
+      else if Pred.C03.appbitsRegion w then some "c03_twobyte_appbits" else none)
+
+/-- `c03.mut` -/
+def c03mut : Handler :=
+  mkHandler (do let b ← Rd.bytes; let qs ← Rd.list Rd.u8; let prev ← Rd.bytes; pure (b, qs, prev)) rdObs
+    (fun (b, qs, prev) => Pred.C03.modelObs b qs prev) (fun (b, qs, _) o => Pred.C03.mutOK b qs o)
+    (fun (b, _, _) => Pred.C03.mutWF b) (fun (b, _, _) _ => Pred.C03.mutRegion b)
+
+def rdViewKind : Rd ViewKind := do
+  let t ← Rd.nat
+  match t with
+  | 1 => pure .oneByte
+  | 2 => pure .twoByte
+  | 3 => pure .raw
+  | _ => Rd.fail
+
+def rdViewIn : Rd Pred.C03.ViewIn := do
+  let k ← rdViewKind
+  let blk ← Rd.opt (do let e ← rdExtBlock; match e with | some b => pure b | none => Rd.fail)
+  let bytes ← Rd.bytes
+  let qs ← Rd.list Rd.u8
+  let fill ← Rd.u8
+  match blk with
+  | some b => if b.encode != bytes then Rd.fail
+  | none => pure ()
+  pure { kind := k, block := blk, bytes := bytes, queries := qs, fill := fill }
+
+def rdViewObs : Rd Pred.C03.ViewObs := do
+  let unm ← Rd.resC Rd.nat
+  let ids ← Rd.resC (Rd.list Rd.u8)
+  let gets ← Rd.list (Rd.resC Rd.obytes)
+  let m ← Rd.resC Rd.bytes
+  let sz ← Rd.resC Rd.nat
+  let to ← Rd.list (Rd.resC (do let b ← Rd.bytes; let n ← Rd.nat; pure (b, n)))
+  pure { unm := unm, ids := ids, gets := gets, marshal := m, size := sz, to := to }
+
+/-- `c03.view` -/
+def c03view : Handler :=
+  mkHandler rdViewIn rdViewObs Pred.C03.modelView Pred.C03.view Pred.C03.viewWF
+    (fun i _ => if Pred.C03.viewAppbitsRegion i then some "c03_twobyte_appbits" else none)
+
+def handlers : List (String × Handler) :=
+  [("c03.wire", c03wire), ("c03.mut", c03mut), ("c03.view", c03view)]
 end Rtp.Kinds.CoreC
